@@ -1,0 +1,6 @@
+//go:build verif
+
+package auxmath
+
+// BoundLog2 exposes boundLog2 to the verification harness.
+func BoundLog2(a uint) uint { return boundLog2(a) }
